@@ -91,13 +91,15 @@ def suite_restrict(ctx, core):
     rng = ctx.nprng('r')
     restrict = exact_fn(core, 'restrict')
     cases, lines = [], []
-    shapes = {0: [(2, 2, 2), (4, 4, 4), (4, 2, 6), (6, 4, 2)],
-              1: [(3, 4, 4), (2, 2, 6), (5, 6, 2)],
-              2: [(4, 3, 4), (2, 5, 2), (6, 2, 4)],
-              3: [(4, 4, 3), (2, 6, 5), (6, 2, 2)],
-              4: [(4, 3, 3), (6, 2, 5), (2, 3, 2)],
-              5: [(3, 4, 3), (2, 6, 2), (5, 2, 3)],
-              6: [(3, 3, 4), (2, 5, 6), (5, 2, 2)]}
+    # (the quick tier takes the first two of each row: different cell counts
+    # in the coarsened directions first, the square ones last)
+    shapes = {0: [(4, 2, 6), (6, 4, 2), (2, 2, 2), (4, 4, 4)],
+              1: [(5, 6, 2), (3, 2, 4), (3, 4, 4), (2, 2, 6)],
+              2: [(6, 2, 4), (2, 5, 4), (4, 3, 4), (2, 5, 2)],
+              3: [(2, 6, 5), (6, 2, 2), (4, 4, 3)],
+              4: [(6, 2, 5), (4, 3, 3), (2, 3, 2)],
+              5: [(2, 6, 2), (3, 4, 3), (5, 2, 3)],
+              6: [(2, 5, 6), (3, 3, 4), (5, 2, 2)]}
     for sc, shps in shapes.items():
         for shp in (shps if ctx.thorough else shps[:2]):
             h = [qarr((n,), rng, positive=True) for n in shp]
@@ -157,7 +159,7 @@ def suite_solver(ctx, core):
     eps = np.finfo(float).eps
     bad = []
     lines, checks = [], []
-    shapes = {0: (4, 4, 2), 1: (3, 4, 4), 2: (4, 3, 2), 3: (2, 4, 3),
+    shapes = {0: (6, 4, 2), 1: (3, 4, 2), 2: (4, 3, 2), 3: (2, 4, 3),
               4: (4, 3, 3), 5: (3, 4, 2), 6: (2, 3, 4)}
     for sc in range(7):
         for rep in range(2 if ctx.thorough else 1):
